@@ -191,6 +191,7 @@ var seedExpectations = []seedExpect{
 	{"glsl-atomic-sub-glue", "C05", "parens.prefixglue", "Writer.writeAtomic:format(value)"},
 	{"dce-pointer-escape", "C13", "census.loadonly", "dce.findDeadLocals:load-census"},
 	{"lower-scope-leftover", "C11", "scope.leaveclean", "lowerFunction:locals"},
+	{"let-pointer-copy", "C08", "attr.aliasclosure", "lowerLocalConst:localIsPtr"},
 	{"glsl-all-entry-points", "C17", "epselect.agree", "Writer.scanTextureSamplerPairs:filter"},
 	{"unknown-name-default", "C17", "name.silentdefault", "Lowerer.addressSpace"},
 	{"mem2reg-revoke-in-walk", "C13", "commit.revoke", "walkBlock"},
